@@ -410,3 +410,108 @@ use tokio_util::sync::CancellationToken;"""
                 && reply_all_ready(final(t).ops[old(t).ops.len() as int]->Report_reply),  // @C16.update_provision_state.finished_only_if_reply_has_all_three
             final(t).deadline_passed == old(t).deadline_passed,
 """)
+
+        u.take_fn(pv, "reset_provision_state", ghost=TASK_GHOST, pre_body=PRE, sig_edits=unit_ret(pv, "reset_provision_state"),
+                  ghost_calls=[("reset_one_state", None, "Tracked(t)"), ("set_provision_finished", None, "Tracked(t)")],
+                  e9=flag_e9("reset_provision_state", consts, ["ALL_READY"]),
+                  hints=[(".set_provision_finished(provision_state.contains(", None, "before", "proof { lemma_contains_all_ready(pf_bits(provision_state)); }")],
+                  contract="""
+        ensures
+            final(t).ops.len() > old(t).ops.len() && final(t).ops.subrange(0, old(t).ops.len() as int) =~= old(t).ops,
+            final(t).ops[old(t).ops.len() as int] is Reset && final(t).ops[old(t).ops.len() as int]->Reset_s == pf_bits(state_to_reset),  // @C16.reset_provision_state.resets_the_named_flags
+            final(t).ops[old(t).ops.len() as int]->Reset_reply is Some ==> final(t).ops.len() == old(t).ops.len() + 2
+                && final(t).ops[old(t).ops.len() as int + 1] is SetFinished
+                && final(t).ops[old(t).ops.len() as int + 1]->SetFinished_finished == all_ready(final(t).ops[old(t).ops.len() as int]->Reset_reply->0),  // @C16.reset_provision_state.finished_cleared_unless_all_three_still_ready
+            final(t).ops[old(t).ops.len() as int]->Reset_reply is None ==> final(t).ops.len() == old(t).ops.len() + 1,
+            final(t).deadline_passed == old(t).deadline_passed,
+""")
+        u.take_fn(pv, "provision_timeup", ghost=TASK_GHOST, pre_body=PRE, sig_edits=unit_ret(pv, "provision_timeup"),
+                  ghost_calls=[("get_state", None, "Tracked(t)"), ("set_provision_finished", None, "Tracked(t)"), ("write_provision_state", None, "Tracked(t)")],
+                  e9=flag_e9("provision_timeup", consts, ["NONE", "ALL_READY"]),
+                  hints=[("if !provision_state.contains(", None, "before", "proof { lemma_contains_all_ready(pf_bits(provision_state)); }")],
+                  contract="""
+        requires
+            old(t).deadline_passed,   // this function IS the deadline handler (census: its only caller is behind the time-up test)
+        ensures
+            final(t).ops.len() <= old(t).ops.len() + 1 && final(t).ops.subrange(0, old(t).ops.len() as int) =~= old(t).ops,
+            final(t).ops.len() == old(t).ops.len() + 1 ==> final(t).ops[old(t).ops.len() as int] == (ActorOp::SetFinished { finished: true, reply: final(t).ops[old(t).ops.len() as int]->SetFinished_reply }),  // @C16.provision_timeup.only_sets_finished
+            final(t).reads.len() > old(t).reads.len(),
+            final(t).ops.len() == old(t).ops.len() + 1 ==> !reply_all_ready(final(t).reads[old(t).reads.len() as int]),  // @C16.provision_timeup.only_when_not_all_three_ready
+""")
+        it = pv.item("get_provision_failed_state_message", "fn")
+
+        def add_ghost(arg):
+            n = len(re.findall(r"\.get_module_status\(\s*AgentStatusModule::\w+\s*\)", arg))
+            if n != 1:
+                raise Undecided("get_provision_failed_state_message: format! argument is not one get_module_status(..) call: %r" % arg)
+            return re.sub(r"(\.get_module_status\(\s*AgentStatusModule::\w+)\s*\)", r"\1, Tracked(t))", arg)
+        fe = []
+        lits = []
+        for i in (1, 2, 3):
+            e, l = fmt_e9(pv, it, "get_provision_failed_state_message", i, add_ghost)
+            fe.append(e)
+            lits.append(l)
+            u.rule("E4", "get_provision_failed_state_message: ghost argument at call get_module_status (inside E9 argument %d)" % i)
+        u.raw("""
+// generated from the three format! literals of get_provision_failed_state_message as they are in the tree (E6)
+pub open spec fn tree_section_prefix(s: Subsystem) -> Seq<char> {
+    match s { Subsystem::Redirector => "%s"@, Subsystem::KeyLatch => "%s"@, Subsystem::Listener => "%s"@ }
+}
+pub open spec fn tree_section_suffix(s: Subsystem) -> Seq<char> {
+    match s { Subsystem::Redirector => "%s"@, Subsystem::KeyLatch => "%s"@, Subsystem::Listener => "%s"@ }
+}
+""" % (lits[0][0], lits[1][0], lits[2][0], lits[0][1], lits[1][1], lits[2][1]))
+        u.take_fn(pv, "get_provision_failed_state_message", ghost=TASK_GHOST,
+                  pre_body=PRE + "proof { lemma_sections_are_the_trees(); lemma_error_text_empty_iff_all_ready_all(); }",
+                  ghost_calls=[("get_state", None, "Tracked(t)")],
+                  e9=flag_e9("get_provision_failed_state_message", consts, ["NONE", "REDIRECTOR_READY", "KEY_LATCH_READY", "LISTENER_READY"]) + fe,
+                  contract="""
+        ensures
+            final(t).ops == old(t).ops && final(t).deadline_passed == old(t).deadline_passed
+                && final(t).last_tick == old(t).last_tick && final(t).last_channel == old(t).last_channel,
+            final(t).reads.len() == old(t).reads.len() + 1 && final(t).reads.subrange(0, old(t).reads.len() as int) =~= old(t).reads,
+            final(t).seen_all_ready == (old(t).seen_all_ready || reply_all_ready(final(t).reads.last())),
+            r@ == error_text(flags_or_none(final(t).reads.last()),
+                    final(t).msgs[AgentStatusModule::Redirector], final(t).msgs[AgentStatusModule::KeyKeeper], final(t).msgs[AgentStatusModule::ProxyServer]),  // @C16.get_provision_failed_state_message.names_exactly_the_subsystems_not_ready
+            (r@.len() == 0) <==> all_ready(flags_or_none(final(t).reads.last())),  // @C16.get_provision_failed_state_message.empty_iff_all_ready
+""")
+        u.take_fn(pv, "get_provision_state_internal", ghost=TASK_GHOST, pre_body=PRE + "proof { lits_channel(); }",
+                  ghost_calls=[("get_provision_finished", None, "Tracked(t)"), ("get_provision_failed_state_message", None, "Tracked(t)"), ("get_current_secure_channel_state", None, "Tracked(t)")],
+                  contract="""
+        ensures
+            final(t).ops == old(t).ops && final(t).deadline_passed == old(t).deadline_passed,
+            final(t).reads.len() == old(t).reads.len() + 1,
+            r.finished_time_tick == tick_or_zero(final(t).last_tick),  // @C16.get_provision_state_internal.tick_is_the_actors_reply
+            r.error_message@ == error_text(flags_or_none(final(t).reads.last()),
+                    final(t).msgs[AgentStatusModule::Redirector], final(t).msgs[AgentStatusModule::KeyKeeper], final(t).msgs[AgentStatusModule::ProxyServer]),  // @C16.get_provision_state_internal.error_text_of_the_flags_read
+            r.key_keeper_secure_channel_state@ == channel_or_unknown(final(t).last_channel),  // @C16.get_provision_state_internal.channel_state_is_the_key_keepers_reply
+""")
+
+
+def build_handler(u):
+    pxs = u.src("proxy_agent/src/proxy/proxy_server.rs")
+    pc = u.src("proxy_agent/src/proxy/proxy_connection.rs")
+    px = u.src("proxy_agent/src/proxy.rs")
+    hc = u.src("proxy_agent/src/common/hyper_client.rs")
+    cs = u.src("proxy_agent/src/common/constants.rs")
+    rw = u.src("proxy_agent/src/shared_state/redirector_wrapper.rs")
+    psw = u.src("proxy_agent/src/shared_state/proxy_server_wrapper.rs")
+    rl = u.src("proxy_agent/src/redirector/linux.rs")
+    pv = u.src(PV)
+    u.raw_file("http_deps.rs")
+    # Placeholder for ONE dependency type: crate `aya` is not part of build/extdeps. `aya::Ebpf` is only the field type of the
+    # opaque struct redirector::BpfObject, which is only the payload of the opaque channel type inside
+    # RedirectorSharedState, a field of ProxyServer that handle_provision_state_check_request never touches.
+    u.ext_pieces.append(vxlib.Piece("pub mod vx_placeholder_aya { pub struct Ebpf; }\n", "rule", rule="placeholder"))
+    u.rule("placeholder", "aya::Ebpf (crate aya not in build/extdeps): unit struct standing in as the field type of the opaque redirector::BpfObject")
+    with u.mod("redirector"):
+        u.take_ext(rl, ["BpfObject"], "vx_ext_redirector", uses="use crate::vx_placeholder_aya::Ebpf;")
+    with u.mod("shared_state_2"):
+        u.take_ext(rw, ["RedirectorAction", "RedirectorSharedState"], "vx_ext_rw", uses="use crate::redirector;\nuse std::sync::{Arc, Mutex};\nuse tokio::sync::{mpsc, oneshot};")
+        u.take_ext(psw, ["ProxyServerAction", "ProxyServerSharedState"], "vx_ext_psw", uses="use crate::proxy::User;\nuse std::collections::HashMap;\nuse tokio::sync::{mpsc, oneshot};")
+    with u.mod("constants2"):
+        pass
+
+
+def _unused():
+    pass
